@@ -258,4 +258,55 @@ def Entry.modulePath : Entry → Option Bytes
   | .path p => some p
   | _ => none
 
+/-! ## histories on one context: what `m->dirname` / `m->basename` hold (src/load.c)
+
+The loaders take "`m->dirname != NULL`" as "loaded from a path".  The fields live in
+the context and survive from one load attempt to the next unless somebody clears them. -/
+
+/-- the part of `struct context_data` that matters here -/
+structure LoadCtx where
+  loaded : Bool := false              -- `ctx->state > XMP_STATE_UNLOADED`
+  dir : Option Bytes := none          -- `m->dirname`
+  base : Option Bytes := none         -- `m->basename`
+  deriving Repr, DecidableEq
+
+/-- how a load attempt ends -/
+inductive Outcome where
+  | refusedEarly     -- −XMP_ERROR_SYSTEM / −XMP_ERROR_INVALID before the context is touched (no such file, size ≤ 0 …)
+  | depackError      -- −XMP_ERROR_DEPACK (path loads only; returns before the context is touched)
+  | formatError      -- no format test matched
+  | loadError        -- a loader ran and failed, or the module was rejected afterwards
+  | ok
+  deriving Repr, DecidableEq
+
+/-- `xmp_release_module` -/
+def releaseCtx (_ : LoadCtx) : LoadCtx := { loaded := false, dir := none, base := none }
+
+/-- the fields as the format loaders see them during this attempt (`none`: no loader ran) and the context afterwards.
+Mirrors `xmp_load_module` / `_from_memory` / `_from_file` / `_from_callbacks` + `load_module`. -/
+def loadStep (c : LoadCtx) (e : Entry) (o : Outcome) : Option (Option Bytes × Option Bytes) × LoadCtx :=
+  match o with
+  | .refusedEarly => (none, c)
+  | .depackError => (none, c)
+  | _ =>
+    let c1 := if c.loaded then releaseCtx c else c           -- `if (ctx->state > XMP_STATE_UNLOADED) xmp_release_module`
+    let c2 : LoadCtx := { c1 with dir := e.modulePath.map getDirname, base := e.modulePath.map getBasename }
+    let seen := (c2.dir, c2.base)
+    match o with
+    | .ok => (some seen, { c2 with loaded := true })
+    | _ => (some seen, releaseCtx c2)                         -- every failure path of `load_module` releases
+
+inductive HistOp where
+  | load (e : Entry) (o : Outcome)
+  | release
+  | play                                -- xmp_start_player / xmp_play_frame: leaves the fields alone
+  deriving Repr, DecidableEq
+
+def histStep (c : LoadCtx) : HistOp → LoadCtx
+  | .load e o => (loadStep c e o).2
+  | .release => releaseCtx c
+  | .play => c
+
+def runHist (c : LoadCtx) (h : List HistOp) : LoadCtx := h.foldl histStep c
+
 end Xmp.PathSafe
